@@ -1126,6 +1126,14 @@ func (jc *judgeCtx) judgePower(j *imageJob) {
 		jc.report(j, "C06", "next-below-watermark", fmt.Sprintf("NextOffset after recovery is %d, the watermark is %d", nx, j.allowed.water))
 		return
 	}
+	// "contains" also means addressable: every message the scan shows is returned by Get
+	for _, m := range scan {
+		g, err := kGet(l, m.Offset)
+		if err != nil || !toRef(g).Equal(m) {
+			jc.report(j, "C06", "views-disagree:get", fmt.Sprintf("after recovery the scan shows offset %d but Get(%d) returns %v %s", m.Offset, m.Offset, toRef(g), errText(err)))
+			return
+		}
+	}
 	if j.allowed.water > 0 {
 		cov.Add("power_images_with_watermark", 1)
 	}
@@ -1176,9 +1184,19 @@ func runCrashmon(cfg *RunCfg, rep *Reporter, cov *Cov, ev *Evidence) {
 			if i%6 == 5 {
 				target = "index"
 			}
-			specs = append(specs, WLSpec{Seed: cfg.Seed*37 + int64(i), Name: fmt.Sprintf("TR%d-%s-v%d-%s", i, o.Cfg(), o.NewVer, target), Steps: []WLStep{
+			steps := []WLStep{
 				{Kind: "open", Opts: &o}, {Kind: "publish", N: 3}, {Kind: "sync"}, {Kind: "publish", N: 2 + i%2}, {Kind: "die"},
-				{Kind: "tear", N: []int{1, 5, 17, 3}[i%4], Target: target}, {Kind: "open", Opts: &orr}, {Kind: "publish", N: 1}, {Kind: "sync"}, {Kind: "close"}}})
+				{Kind: "tear", N: []int{1, 5, 17, 3}[i%4], Target: target}, {Kind: "open", Opts: &orr}, {Kind: "publish", N: 1}, {Kind: "sync"}, {Kind: "close"}}
+			if i%6 == 4 {
+				// the log cut at a record boundary and the index inside the item of the lost record; after the
+				// recovery the segment is appended to, rolls over and is read again by a later process
+				target = "both"
+				steps = []WLStep{
+					{Kind: "open", Opts: &o}, {Kind: "publish", N: 3}, {Kind: "sync"}, {Kind: "publish", N: 3}, {Kind: "die"},
+					{Kind: "tear", N: 5, Target: target}, {Kind: "open", Opts: &orr}, {Kind: "publish", N: 3}, {Kind: "publish", N: 3}, {Kind: "publish", N: 2}, {Kind: "sync"}, {Kind: "close"},
+					{Kind: "open", Opts: &o}, {Kind: "publish", N: 1}, {Kind: "close"}}
+			}
+			specs = append(specs, WLSpec{Seed: cfg.Seed*37 + int64(i), Name: fmt.Sprintf("TR%d-%s-v%d-%s", i, o.Cfg(), o.NewVer, target), Steps: steps})
 		}
 	}
 	if cfg.Scale < 1 {
